@@ -106,35 +106,28 @@ Sig(cls, op, v) == "C25|" \o v[1] \o "|pre=" \o cls \o "|op=" \o op \o "|" \o v[
 (* =========================== DESIGN LAYER ================================= *)
 \* A line of the file: [k, v, form].
 \*   k: "allow" | "susp" (v = peer name), "swaps" | "acc" (v = "true"/"false"), "minswap" (v = digits),
-\*      "comment", "unknown" (a key peerswap does not know), "blank", "section" ([v] header),
-\*      "bad" (a line the ini parser refuses).
+\*      "comment", "unknown" (a key peerswap does not know), "blank", "section" ([v] header).
 \*   form: "canon" (key=value, exactly what policy.go writes), "spaced" (key = value),
-\*      "quoted" (key="value"), "merged" (an appended line glued to a last line without newline)
+\*      "quoted" (key="value")
 L(k, v, form) == [k |-> k, v |-> v, form |-> form]
 Canon(k, v)   == L(k, v, "canon")
 
-\* appending `line` + newline with O_APPEND: glued to the last line if the file does not
-\* end in a newline
-Merge(last) ==
-    CASE last.k \in {"allow", "susp"} /\ last.form # "quoted" -> L(last.k, Garbage, "merged")
-      [] last.k \in {"comment", "unknown"} -> last       \* swallows the appended text
-      [] OTHER -> L("bad", "", "merged")                  \* bool / number / quoted / section header glued to text
-AppendLine(f, n, line) ==
-    IF f = <<>> \/ n THEN Append(f, line)
-    ELSE [f EXCEPT ![Len(f)] = Merge(f[Len(f)])]
+\* addLineToFile: appends `line` + newline with O_APPEND; if the file is not empty and does not end in a
+\* newline, a newline is written first, so the new line is never glued to the last one
+\* (repo commit "fix: append policy entries on their own line also when the file lacks a final newline")
+AppendLine(f, n, line) == Append(f, line)
 
 \* removeLineFromFile: drops exactly the lines whose text equals the canonical line and
 \* rewrites every other line followed by a newline
 RemoveCanon(f, k, v) == SelectSeq(f, LAMBDA l : ~(l.k = k /\ l.v = v /\ l.form = "canon"))
 
 \* the ini parser: list keys accumulate, scalar keys last-wins, everything after a section
-\* header of an unknown group is ignored, one refused line fails the whole load
+\* header of an unknown group is ignored (a line of a kind not listed above would fail the whole load)
 RECURSIVE ParseFrom(_, _, _, _)
 ParseFrom(f, i, acc, insec) ==
     IF i > Len(f) THEN [ok |-> TRUE, pol |-> acc]
     ELSE LET l == f[i] IN
-         IF l.k = "bad" THEN [ok |-> FALSE, pol |-> DefaultPol]
-         ELSE IF l.k = "section" THEN ParseFrom(f, i + 1, acc, TRUE)
+         IF l.k = "section" THEN ParseFrom(f, i + 1, acc, TRUE)
          ELSE IF insec \/ l.k \in {"comment", "unknown", "blank"} THEN ParseFrom(f, i + 1, acc, insec)
          ELSE IF l.k = "allow" THEN ParseFrom(f, i + 1, [acc EXCEPT !.allow = @ \cup {l.v}], insec)
          ELSE IF l.k = "susp" THEN ParseFrom(f, i + 1, [acc EXCEPT !.susp = @ \cup {l.v}], insec)
@@ -202,8 +195,12 @@ InitFiles == {
     [cls |-> "nonl-comment",       nl |-> FALSE, file |-> <<Canon("allow", A), Cmt>>],
     [cls |-> "nonl-unknown",       nl |-> FALSE, file |-> <<Canon("susp", A), Unk>>] }
 
-\* the classes on which the statement is expected to hold for the design as written:
 \* every line the node itself could have written plus lines it copies verbatim
 CanonicalClasses == {"empty", "canonical-lists", "canonical-off", "canonical-on", "canonical-other",
                      "accept-all", "unknown-keys", "comments", "dup-lists", "dup-swaps-on", "dup-swaps-off"}
+\* canonical lines but no newline at the end of the file
+NoNewlineClasses == {"nonl-allow", "nonl-susp", "nonl-swaps-off", "nonl-swaps-on", "nonl-other", "nonl-comment", "nonl-unknown"}
+\* the classes on which the statement holds for the design as written (invariants in PolicyMC); on the
+\* remaining ones (spaced / quoted entries, section header) the design breaks it in the predicted way
+SoundClasses == CanonicalClasses \cup NoNewlineClasses
 ===============================================================================
